@@ -300,6 +300,9 @@ class StreamModel(Model):
         return res
 
     def iter_of(self, st, v, line):
+        if isinstance(v, VRef) and v.cls == "RustIter":
+            f = z3.Function("RITER_STREAM", IntS, self.STREAM)
+            return VStream(f(v.t))
         if isinstance(v, VStream):
             return self.iter_of_stream(st, v.t, line)
         if isinstance(v, VList):
@@ -459,3 +462,168 @@ class StreamModel(Model):
 
 def install(lib):
     pass
+
+
+# ---------------------------------------------------------------------------
+class TFModel(Model):
+    """TensorFlow (A-TF): tf.data operations are uninterpreted stream
+    operators TFOP(name, S, args); tf.* constructors are uninterpreted
+    values TFCALL(name, args).  Argument packs are built positionally then by
+    keyword name, so a contract can restate the same term from the interface
+    parameters (`tfop(...)`, `tfcall(...)` in the clause language)."""
+
+    def __init__(self, ext):
+        super().__init__(ext)
+        lib = self.lib
+        STREAM = lib.STREAM
+        F = z3.Function
+        self.TFOP = F("TFOP", U, STREAM, U, STREAM)
+        self.TFCALL = F("TFCALL", U, U, U)
+        self.PACK = F("PACK", U, U, U)
+        self.PACKK = F("PACKK", U, U, U, U)
+        self.NIL = z3.Const("NILPACK", U)
+        self.INTU = F("INTU", IntS, U)
+        self.BOOLU = F("BOOLU", BoolS, U)
+        self.OPTU = F("OPTU", BoolS, U, U)
+        self.SEQU = F("SEQU", lib.SEQ, U)
+        self.THUNK = F("THUNK", U, U)
+
+    def sm(self):
+        return self.lib.stream_model()
+
+    def to_u(self, st, v):
+        eng = self.eng
+        sm = self.sm()
+        if isinstance(v, VInt):
+            return self.INTU(v.t)
+        if isinstance(v, VBool):
+            return self.BOOLU(v.t)
+        if isinstance(v, VNone):
+            return NONE_U
+        if isinstance(v, VOpt):
+            return self.OPTU(v.isnone, self.to_u(st, v.val))
+        if isinstance(v, VU):
+            return v.t
+        if isinstance(v, VList):
+            return self.SEQU(sm.seq_of_list(st, v))
+        if isinstance(v, VStream):
+            return sm.ITER_U(v.t)
+        if isinstance(v, VRef):
+            return sm.BOX(v.t)
+        if isinstance(v, VTuple):
+            t = self.NIL
+            for x in reversed(v.items):
+                t = self.PACK(self.to_u(st, x), t)
+            return t
+        if isinstance(v, VFunc):
+            if v.t is not None:
+                return v.t
+            if isinstance(v.bound, ast.Lambda):
+                return self.lambda_u(st, v.bound)
+            t = sm.func_term(st, v)
+            if t is not None:
+                return t
+        if isinstance(v, VModule):
+            return eng.strconst("module:" + v.name)
+        raise self.E.Unsupported(f"tf argument {v!r}")
+
+    def lambda_u(self, st, lam):
+        eng = self.eng
+        sm = self.sm()
+        if len(lam.args.args) == 0:
+            body = eng.eval(st, lam.body)
+            return self.THUNK(self.to_u(st, body))
+        if len(lam.args.args) == 1:
+            # canonical term of a one-parameter lambda: LAM(body[HOLE]); two
+            # lambdas with the same body (up to the parameter name) are the
+            # same term
+            name = lam.args.args[0].arg
+            hole = z3.Const("HOLE", U)
+            saved = st.locals
+            st.locals = dict(saved)
+            st.locals[name] = VU(hole)
+            st.spec += 1
+            try:
+                body = eng.eval(st, lam.body)
+            finally:
+                st.spec -= 1
+                st.locals = saved
+            return z3.Function("LAM", U, U)(self.to_u(st, body))
+        raise self.E.Unsupported("lambda with several parameters")
+
+    def pack(self, st, args, kwargs):
+        t = self.NIL
+        for k in sorted(kwargs, reverse=True):
+            t = self.PACKK(self.eng.strconst(k), self.to_u(st, kwargs[k]), t)
+        for a in reversed(args):
+            t = self.PACK(self.to_u(st, a), t)
+        return t
+
+    STREAM_CTORS = ("from_tensor_slices", "from_generator", "TFRecordDataset")
+
+    def call_dotted(self, st, d, node):
+        eng = self.eng
+        if not (d.startswith("tf.") or d.startswith("tensorflow.")):
+            return NotImplemented
+        d = "tf." + d.split(".", 1)[1]
+        args, kwargs = eng.eval_args(st, node)
+        t = self.TFCALL(eng.strconst(d), self.pack(st, args, kwargs))
+        if d.split(".")[-1] in self.STREAM_CTORS:
+            return VStream(self.sm().STREAMVAL(t))
+        return VU(t)
+
+    def call_other_method(self, st, recv, name, node):
+        eng = self.eng
+        if isinstance(recv, VStream) and name in (
+                "interleave", "map", "shuffle", "batch", "prefetch", "repeat",
+                "take", "cache", "unbatch", "filter"):
+            args, kwargs = eng.eval_args(st, node)
+            return VStream(self.TFOP(eng.strconst(name), recv.t,
+                                     self.pack(st, args, kwargs)))
+        return NotImplemented
+
+    def comprehension(self, st, node, kind):
+        # {attribute.name: tf.TensorSpec(...) for attribute in description}:
+        # an opaque value determined by the iterated value
+        if kind == "dict" and len(node.generators) == 1:
+            src = self.eng.eval(st, node.generators[0].iter)
+            f = z3.Function("DICTCOMP_%d" % node.lineno, U, U)
+            return VU(f(self.to_u(st, src)))
+        return None
+
+    # spec builtins -----------------------------------------------------------
+    def sp_args(self, st, node, skip):
+        eng = self.eng
+        args = [eng.eval(st, a) for a in node.args[skip:]]
+        kwargs = {k.arg: eng.eval(st, k.value) for k in node.keywords}
+        return self.pack(st, args, kwargs)
+
+
+def _sp_tfop(lib, st, node):
+    eng = lib.eng
+    tf = [m for m in lib.ext.models if type(m).__name__ == "TFModel"][0]
+    name = node.args[0].value
+    s = eng.eval(st, node.args[1])
+    return VStream(tf.TFOP(eng.strconst(name), s.t, tf.sp_args(st, node, 2)))
+
+
+def _sp_tfcall(lib, st, node):
+    eng = lib.eng
+    tf = [m for m in lib.ext.models if type(m).__name__ == "TFModel"][0]
+    name = node.args[0].value
+    t = tf.TFCALL(eng.strconst(name), tf.sp_args(st, node, 1))
+    if name.split(".")[-1] in tf.STREAM_CTORS:
+        return VStream(lib.stream_model().STREAMVAL(t))
+    return VU(t)
+
+
+def _sp_thunk(lib, st, node):
+    eng = lib.eng
+    tf = [m for m in lib.ext.models if type(m).__name__ == "TFModel"][0]
+    v = eng.eval(st, node.args[0])
+    return VU(tf.THUNK(tf.to_u(st, v)))
+
+
+def _sp_lam(lib, st, node):
+    tf = [m for m in lib.ext.models if type(m).__name__ == "TFModel"][0]
+    return VU(tf.lambda_u(st, node.args[0]))
